@@ -513,7 +513,7 @@ def _check_seek(R):
     seeks = PR.calls_matching(f, r"as std::io::Seek>::seek$")
     sws = [sw for sw in sorted(f.reach) if f.blocks[sw]["term"]["k"] == "switch" and
            f.blocks[sw]["term"]["discr"].get("ty") == "bool" and
-           any(o.kind == "arg" and f.local_name(o.arg) == "head" for o in F.origins(f, f.blocks[sw]["term"]["discr"], depth=4))]
+           any(o.kind == "arg" and f.local_ty(o.arg) == "bool" for o in F.origins(f, f.blocks[sw]["term"]["discr"], depth=4))]
     if len(seeks) != 2 or len(sws) != 1:
         R.violation("C10.seek", "new|shape", "FollowFileExecutor::new: expected one branch on `head` with one seek per arm (found %d seeks, %d branches)"
                     % (len(seeks), len(sws)), [f.loc()])
